@@ -45,6 +45,16 @@ def seq_str_at(t, j):
     return ufun('v_str_at', Val, z3.IntSort(), PyStr)(t, zint(j))
 
 
+def v_has(t, key):
+    """document t (a dict) has the key"""
+    return ufun('v_has', Val, PyStr, z3.BoolSort())(t, key)
+
+
+def v_get(t, key):
+    """the value stored under key in document t"""
+    return ufun('v_get', Val, PyStr, Val)(t, key)
+
+
 def list_term(items):
     """Val term denoting the Python list `items` (elements may be Chunk)"""
     t = v_nil()
